@@ -141,13 +141,16 @@ impl BandwidthMonitor {
             let mut samples = self.recent_samples.write().await;
             samples.push_back((now, bandwidth));
 
-            // Remove old samples outside the window
-            let cutoff = now.checked_sub(self.sample_window).unwrap_or(now);
-            while let Some((sample_time, _)) = samples.front() {
-                if *sample_time < cutoff {
-                    samples.pop_front();
-                } else {
-                    break;
+            // Remove old samples outside the window. A window that reaches back beyond what
+            // Instant can represent (Duration::MAX, or longer than the uptime on platforms
+            // whose Instant starts at boot) has no sample outside it.
+            if let Some(cutoff) = now.checked_sub(self.sample_window) {
+                while let Some((sample_time, _)) = samples.front() {
+                    if *sample_time < cutoff {
+                        samples.pop_front();
+                    } else {
+                        break;
+                    }
                 }
             }
             drop(samples);
@@ -188,8 +191,9 @@ impl BandwidthMonitor {
             return 0;
         }
 
-        let total: u64 = samples.iter().map(|(_, bw)| *bw).sum();
-        total / samples.len() as u64
+        // Samples saturate at u64::MAX: add them up in u128
+        let total: u128 = samples.iter().map(|(_, bw)| u128::from(*bw)).sum();
+        u64::try_from(total / samples.len() as u128).unwrap_or(u64::MAX)
     }
 
     /// Recommend optimal range size based on current bandwidth
